@@ -14,7 +14,7 @@ import (
 type c15Case struct {
 	classes []string   // class names
 	parents [][]string // parents[i] = parents of classes[i]
-	alias   int        // 0 none, 1 X->T, 2 X->Y,Y->T, 3 X->Y,Y->X (alias cycle; the variable is typed by X)
+	alias   int        // 0 none, 1 X->T, 2 X->Y,Y->T, 3 X->Y,Y->X (alias cycle; the variable is typed by X), 4 X->Y|Z, Y->X|Z, Z->X|Y (cycle through unions)
 	wrap    int        // 0 T, 1 T[], 2 table<string,T>
 	split   bool       // declarations in defs.lua, variable in main.lua
 	layout  int        // 0 class blocks separated by blank lines; 1 one contiguous comment block; 2 one file per class
@@ -88,6 +88,14 @@ func (c c15Case) build() (files map[string]string, mainFile string, access strin
 		add("---@alias Y X")
 		add("")
 		typ = "X" // the variable is typed by the cyclic alias: nothing to offer, but the server must survive
+	case 4:
+		add("---@alias X Y|Z")
+		add("")
+		add("---@alias Y X|Z")
+		add("")
+		add("---@alias Z X|Y")
+		add("")
+		typ = "X"
 	}
 	switch c.wrap {
 	case 0:
@@ -151,7 +159,7 @@ func c15Cases(tier string) []c15Case {
 	// two classes: every graph x every alias shape x every wrapper x every layout
 	two := []string{"A", "B"}
 	for _, ps := range graphs(two) {
-		for alias := 0; alias < 4; alias++ {
+		for alias := 0; alias < 5; alias++ {
 			for wrap := 0; wrap < 3; wrap++ {
 				for _, split := range []bool{false, true} {
 					for layout := 0; layout < 3; layout++ {
@@ -169,7 +177,7 @@ func c15Cases(tier string) []c15Case {
 			for _, split := range []bool{false, true} {
 				out = append(out, c15Case{three, ps, 0, 0, split, layout})
 				if tier == "thorough" {
-					for alias := 0; alias < 4; alias++ {
+					for alias := 0; alias < 5; alias++ {
 						for wrap := 0; wrap < 3; wrap++ {
 							if alias == 0 && wrap == 0 {
 								continue
@@ -221,7 +229,7 @@ func c15Space(tier string) *core.Space {
 			_ = cyclic
 			// the alias cycle X->Y->X: the variable's type does not denote a class; only liveness is required
 			want := c.expected()
-			if c.alias == 3 {
+			if c.alias >= 3 {
 				want = map[string]bool{}
 			}
 			// completion after the member access typed on a new last line
@@ -267,11 +275,11 @@ func c15Space(tier string) *core.Space {
 			}
 			for _, n := range c.classes {
 				f := c.fieldOf(n)
-				if labels[f] && !want[f] && c.alias != 3 {
+				if labels[f] && !want[f] && c.alias < 3 {
 					extra = append(extra, f)
 				}
 			}
-			if c.wrap == 0 && c.alias != 3 && !labels["extra"] {
+			if c.wrap == 0 && c.alias < 3 && !labels["extra"] {
 				missing = append(missing, "extra(assigned through the variable)")
 			}
 			sort.Strings(missing)
@@ -326,10 +334,10 @@ func init() {
 	core.Register(&core.Check{
 		ID:        "C15",
 		Technique: "bounded-exhaustive enumeration of class hierarchies (every parent-set assignment over 2 (quick) / 3 (thorough) classes, cycles and self-inheritance included) x alias shapes x wrapper types x file layouts on the real server against a cycle-safe transitive-closure model",
-		Rule: "classes A, B (, C) each with one field; every assignment of parent sets (16 / 512 graphs); aliases {none, X->A, X->Y->A, X->Y->X}; the variable typed by ---@type T, T[] or table<string,T>; declarations in the same file or in a second file; a member assigned through the variable. " +
+		Rule: "classes A, B (, C) each with one field; every assignment of parent sets (16 / 512 graphs); aliases {none, X->A, X->Y->A, X->Y->X, X->Y|Z with Y->X|Z and Z->X|Y}; the variable typed by ---@type T, T[] or table<string,T>; declarations in the same file or in a second file; a member assigned through the variable. " +
 			"member completion behind v. / v[1]. / v[\"k\"]. must offer exactly the fields of A and of all its ancestors (plus the assigned member), no field of an unrelated class; member go-to-definition must reach the ---@field line; cyclic hierarchies and alias cycles must neither crash nor hang (worker journal attributes them). " +
 			"states = cases judged; non-trivial = cases with inheritance or an alias",
-		Assumptions: []string{"other completion labels are ignored", "for the alias cycle X->Y->X only liveness is required"},
+		Assumptions: []string{"other completion labels are ignored", "for the alias cycles (X->Y->X, and the cycle through unions) only liveness is required"},
 		Flavour:     "prod+overlay", QuickBudgetS: 150, ThoroughBudgetS: 900,
 		Spaces:      func(tier string) []*core.Space { return []*core.Space{c15Space(tier)} },
 	})
